@@ -356,3 +356,57 @@ func NodeAt(n *tree.Node, path string) *tree.Node {
 	}
 	return n
 }
+
+// ParentLinks walks a tree the way DumpNode does and reports the first combination whose child does not point back to it
+// ("" = every Left/Right child has the combination as its Parent). GetComponentName, GetSharedLeft/Right, GetSuffix,
+// GetAnnotations and the linkage search read the tree upwards through these pointers.
+func ParentLinks(n *tree.Node, depth int) string {
+	if n == nil || depth > 200 {
+		return ""
+	}
+	if n.Left != nil || n.Right != nil {
+		for _, c := range []*tree.Node{n.Left, n.Right} {
+			if c == nil {
+				continue
+			}
+			if c.Parent != n {
+				what := "nil"
+				if c.Parent != nil {
+					what = "another node (operator '" + c.Parent.LogicalOperator + "', component '" + c.Parent.GetComponentName() + "')"
+				}
+				return "child of combination '" + n.LogicalOperator + "' (component '" + n.GetComponentName() + "') has parent " + what
+			}
+			if r := ParentLinks(c, depth+1); r != "" {
+				return r
+			}
+		}
+		return ""
+	}
+	for _, p := range n.PrivateNodeLinks {
+		if r := parentLinksEntry(p.Entry, depth+1); r != "" {
+			return r
+		}
+	}
+	return parentLinksEntry(n.Entry, depth+1)
+}
+
+func parentLinksEntry(e interface{}, depth int) string {
+	switch v := e.(type) {
+	case *tree.Statement:
+		if v == nil {
+			return ""
+		}
+		for _, p := range FieldPtrs(v) {
+			if r := ParentLinks(*p, depth+1); r != "" {
+				return r
+			}
+		}
+	case []*tree.Node:
+		for _, x := range v {
+			if r := ParentLinks(x, depth+1); r != "" {
+				return r
+			}
+		}
+	}
+	return ""
+}
